@@ -25,7 +25,7 @@ API = {0: 'parallel_for(ts, start, end, f(b,e), opts)', 1: 'parallel_for(ts, sta
 def inst(name, N, S, mode=0, wait=2, api=0, tiers=('quick', 'thorough'), timeout=280, unwind=None, thorough=None, **kw):
     defs = {'VF_N': N, 'VF_S': S, 'VF_MODE': mode, 'VF_WAIT': wait, 'VF_DEPTH': N + 1, 'VF_API': api}
     defs.update(kw)
-    d = {'name': name, 'src': 'conc.cpp', 'engine': 'cbmc', 'defs': defs, 'models': ['aligned_alloc'], 'rt_defs': {'VF_SCALAR_INLOG': 1},
+    d = {'name': name, 'src': 'conc.cpp', 'engine': 'cbmc', 'defs': defs, 'models': ['aligned_alloc'],
          'unwind': unwind or max(S + 2, N + 3), 'timeout': timeout, 'tiers': list(tiers),
          'unwind_fn': {'re:parallel_for_dynamicMultiGroupImpl.*_clI': 1},
          'bounds': ('%s; int32 range, start %d, size 0..%d; %s; numPoolThreads = %d; maxThreads 0..%d or INT32_MAX; '
@@ -42,7 +42,9 @@ Q = ('quick', 'thorough')
 TH = ('thorough',)
 EX = ('experimental',)
 INSTANCES = [
-    inst('pf_static_n2', 2, 5),
-    inst('foreach_n2', 2, 5, api=3, tiers=EX),
-    inst('pf_index_n2', 2, 5, api=1, tiers=EX),
+    # On /repo this reports the static / no-wait / tail defect (see NOTES.md).
+    inst('pf_static_n2', 2, 5, timeout=290, thorough={'timeout': 1500, 'defs': {'VF_N': 2, 'VF_S': 6, 'VF_MODE': 0, 'VF_WAIT': 2, 'VF_DEPTH': 3, 'VF_API': 0}}),
+    inst('pf_range_n2', 2, 5, api=2, tiers=EX, timeout=900),
+    inst('foreach_n2', 2, 3, api=3, tiers=EX, VF_SPK=1),
+    inst('pf_index_n2', 2, 3, api=1, tiers=EX, VF_SPK=1),
 ]
